@@ -28,6 +28,8 @@ def run(ctx):
     failures += progflow.judge(ctx, progflow.scale_cases(ctx, "C01"), "scale")
     # every ordered pair of feature snippets x every composition mode (spec/FamPairs.tla): the pairs whose highest property is this one
     failures += progflow.judge(ctx, progflow.pair_cases(ctx, "C01"), "pairs")
+    # legal spellings the renderer never produces (spec/FamSyn.tla): the TEXT is run, the program it must mean is validated
+    failures += progflow.judge(ctx, progflow.syn_cases(ctx, "C01"), "syn")
     # run-time histories (spec/FamHist.tla): the same constructs visited again and again along different dynamic paths
     failures += progflow.judge(ctx, progflow.hist_cases(ctx, ("loops", "loopsfn", "loopsnest", "iter")), "hist")
     # every control skeleton up to a size (spec/FamSkel.tla): all nestings and sequencings of 8 constructs, one jump site at most
